@@ -533,7 +533,7 @@ impl<'a> Gen<'a> {
         let spec = unit.fns.get(&path).cloned().unwrap_or_default();
         let mut fo = FnOut { path: path.clone(), src: src.to_string(), src_line, contract_only, from_unit: unit.name.clone(), hints: 0, hint_kinds: BTreeMap::new(), loops: 0, return_points: 0, probes: vec![], lowered_sites: 0, dead_probes: vec![] };
         // free function whose first parameter is a shared reference to the struct owning a former cell: it becomes `&mut`
-        if !contract_only && tyname.is_none() && unit.refcell_mut_fns.contains(&path) {
+        if tyname.is_none() && unit.refcell_mut_fns.contains(&path) {
             if let Some(syn::FnArg::Typed(pt)) = sig.inputs.first_mut() { if let syn::Type::Reference(r) = &mut *pt.ty { if r.mutability.is_none() { r.mutability = Some(Default::default()); *self.rules.dropped.entry("R:param-mut".into()).or_default() += 1; } } }
         }
         if !contract_only && (unit.refcell_mut_fns.contains(&path) || unit.refcell_mut_unless.iter().any(|(feat, f)| f == &path && !self.features.contains(feat))) { if let Some(syn::FnArg::Receiver(r)) = sig.inputs.first_mut() { *r = parse_quote!(&mut self); } }
@@ -560,7 +560,7 @@ impl<'a> Gen<'a> {
                     // unit function: the `return` template (and the at-return postcondition asserts) go at the end of the body
                     if !spec.ret_hint.trim().is_empty() || !spec.ensures.is_empty() {
                         let falls_through = !matches!(block.stmts.last(), Some(Stmt::Expr(e, _)) if is_diverging_tail(e));
-                        if falls_through { mk.return_points += 1; let m = mk.marker(&spec.ret_hint.clone(), vec!["()".to_string()], "return"); block.stmts.push(m); }
+                        if falls_through { if let Some(Stmt::Expr(_, semi @ None)) = block.stmts.last_mut() { *semi = Some(Default::default()); } mk.return_points += 1; let m = mk.marker(&spec.ret_hint.clone(), vec!["()".to_string()], "return"); block.stmts.push(m); }
                     }
                     if let Some(p) = mk.probe() { block.stmts.push(p); }
                 }
